@@ -137,6 +137,37 @@ def run(ctx):
         if "Postcondition" not in str(ex):
             raise
         rejected = str(ex)
+    if rejected and not other_viol:
+        # The spec's serialization is injective on the abstract header modulo the Hash field (and, in the as-is variant,
+        # modulo the commit-proof signatures), so a rejected trace has a concrete witness among its rows: two headers
+        # that must hash differently share a real hash, or one header got two real hashes.  Report the witness.
+        def canon(h):
+            h = json.loads(json.dumps(h))
+            if isinstance(h, dict):
+                h.pop("Hash", None)
+                if sigs_dev and isinstance(h.get("pcp"), (dict, list)):
+                    h["pcp"] = sorted(h["pcp"].keys()) if isinstance(h["pcp"], dict) else sorted(json.dumps(x.get("b", x) if isinstance(x, dict) else x) for x in h["pcp"])
+            return json.dumps(h, sort_keys=True)
+        rows = vlib.read_ndjson(trace)
+        for op, key in (("hash", "h"), ("sign", "item")):
+            by_cls, by_ser = {}, {}
+            for r in rows:
+                if r.get("op") != op or key not in r:
+                    continue
+                c, sr = r.get("cls"), canon(r[key])
+                if c in by_cls and by_cls[c][0] != sr:
+                    ctx.violation("HashDiffers" if op == "hash" else "SignBytesDistinct", "trace", "collision",
+                                  "two different %s share one real output: %s and %s" % ("headers (modulo the Hash field)" if op == "hash" else "sign items", by_cls[c][0][:600], sr[:600]),
+                                  replay_obj={"rows": [by_cls[c][1], r]})
+                    break
+                by_cls.setdefault(c, (sr, r))
+                if sr in by_ser and by_ser[sr][0] != c:
+                    ctx.violation("HashIgnoresHashFieldAndOrder" if op == "hash" else "SignBytesDistinct", "trace", "not-a-function",
+                                  "the same %s produced two different real outputs: %s" % ("header (modulo the Hash field and map/slice order)" if op == "hash" else "sign item", sr[:600]),
+                                  replay_obj={"rows": [by_ser[sr][1], r]})
+                    break
+                by_ser.setdefault(sr, (c, r))
+        other_viol = [v for v in ctx.violations if v["fingerprint"]["class"] != "pcp.sigs"]
     if rejected:
         if not other_viol:
             # the spec cannot explain the kernel of the real functions but no property predicate failed on the harness side
